@@ -16,6 +16,8 @@ inductive Ev
   | data (id : Nat)          -- bytes are readable on the connection
   | gone (id : Nat)          -- the peer closed / half-closed / reset: read returns 0 or an error
   | expire (id : Nat)        -- checkIdlePeers decides to drop the connection
+  | writeFail (id : Nat)     -- a write to the connection fails with EPIPE / ECONNRESET (asyncWriteImpl): the queued entry is
+                             -- dropped, NOTHING is released - the read side will report the loss of the peer
   deriving DecidableEq, Repr
 
 inductive Call | conn | input | disc
@@ -32,6 +34,7 @@ def step (s : LState) : Ev → LState
   | .data id => if id ∈ s.peers then { s with log := s.log ++ [(id, .input)] } else s
   | .gone id => if id ∈ s.peers then { peers := s.peers.erase id, log := s.log ++ [(id, .disc)], released := s.released ++ [id] } else s
   | .expire id => if id ∈ s.peers then { peers := s.peers.erase id, log := s.log ++ [(id, .disc)], released := s.released ++ [id] } else s
+  | .writeFail _ => s
 
 def run (evs : List Ev) : LState := evs.foldl step {}
 
